@@ -60,6 +60,7 @@ pub fn scan(a: &[u8], files: &[HFile]) -> Option<(Vec<Value>, bool)> {
             let size = hex8(a, at + 54)? as usize;
             let nsz = hex8(a, at + 94)? as usize;
             if nsz == 0 { return None; }
+            if *a.get(at + 110 + nsz - 1)? != 0 { return None; }      // the name must be NUL-terminated inside namesize
             let name = a.get(at + 110..at + 110 + nsz - 1)?.to_vec();
             let data_at = pad4(at + 110 + nsz);
             if name == b"TRAILER!!!" {
